@@ -63,12 +63,21 @@ func (s *dirSym) c(x string) string {
 
 func (s *dirSym) entries(es []dEntry) []*gldap.Entry {
 	out := make([]*gldap.Entry, 0, len(es))
+	// entries with equal value lists are given the very same slice (as testdirectory.NewUsers does with WithMembersOf,
+	// and as callers do who build several entries from one objectClass list): changing one entry must not show in another
+	shared := map[string][]string{}
 	for _, e := range es {
 		ge := &gldap.Entry{DN: s.c(e.DN)}
 		for _, a := range e.Attrs {
 			vals := make([]string, 0, len(a.Vals))
 			for _, v := range a.Vals {
 				vals = append(vals, s.c(v))
+			}
+			key := fmt.Sprintf("%s\x00%d\x00%s", a.Name, len(vals), strings.Join(vals, "\x00"))
+			if sv, ok := shared[key]; ok && len(vals) > 0 {
+				vals = sv
+			} else {
+				shared[key] = vals
 			}
 			ge.Attributes = append(ge.Attributes, gldap.NewEntryAttribute(s.c(a.Name), vals))
 		}
